@@ -77,8 +77,13 @@ def run(rep, tier, seed, pa):
         labels = sorted(set(l for us in case["units"] for (_, _, l) in us))
         ids = {l: i for i, l in enumerate(labels + ["__absent__"])}
         catid = lambda l: ids[l]
-        als = [("best", cont.get_best_alignment(dissim)), ("soft", cont.get_best_soft_alignment(dissim)),
-               ("random", random_partition_alignment(pa, rng, cont))]
+        try:
+            als = [("best", cont.get_best_alignment(dissim)), ("soft", cont.get_best_soft_alignment(dissim)),
+                   ("random", random_partition_alignment(pa, rng, cont))]
+        except Exception as e:
+            rep.case()
+            rep.violation("alignment-raises:" + type(e).__name__, {"units": case["units"], "dissim": case["spec"], "error": repr(e)}, "alignment computation raised %r" % (e,))
+            continue
         # metamorphic: re-listing the slots of every tuple of the best alignment must not change the value (C12 slot-order theorem)
         from pygamma_agreement.alignment import Alignment, UnitaryAlignment
         relisted = Alignment([UnitaryAlignment(rng.sample(ua.n_tuple, len(ua.n_tuple))) for ua in als[0][1].unitary_alignments], cont)
